@@ -2,3 +2,37 @@
 from vlib.props import convprops as P, convcommon as cc
 from vlib import convgen as g
 globals().update(P.make('C08', 'conv probe: every cut point (connection closed at every octet offset) of 6 conversations (DATA, BDAT, LMTP, AUTH) in 2 configurations; generic sweep and walks incl. TLS; every server-initiated close (QUIT, error threshold, over-long line, idle timeout, backend panic) with pipelined suffixes. non-trivial = at least one backend callback', ['C08_lifecycle', 'C08_lifecycle_visible', 'C08_ends_closed'], [('every-cut', P.cut_convs)], lambda a: cc.project(a, codes='class', enh=False, drecs='ret'), tls=True, configs=None))
+
+
+# --- overlapping Close calls: the peer goes away / QUITs / the application closes the connection while Server.Close or
+# Shutdown runs, with a backend whose Logout takes a while (so the calls really overlap) ---------------------------------
+from vlib.core import Group as _Group
+from vlib.props import C20 as _C20
+_g0 = groups
+RULE = RULE + (" | sched probe: every pair of overlapping endings over {peer disconnects, QUIT, Conn.Close by the application, Server.Close, "
+               "Server.Shutdown} with a slow Logout, with and without an open chunked transfer, SMTP and LMTP: the lifecycle judge on the trace")
+
+
+def overlapping_closes(tier, rng):
+    cases = []
+    seg = _C20.seg
+    for lm in (0, 1):
+        hello = b"LHLO x\r\n" if lm else b"EHLO x\r\n"
+        for open_bdat in (0, 1):
+            pre = [hello, b"MAIL FROM:<s@x>\r\n", b"RCPT TO:<a@x>\r\n"] + ([b"BDAT 3\r\nabc"] if open_bdat else [])
+            be = "NS=;MAIL=;RCPT=;DATA=%s;AUTH=;SASL=;HS=" % g.ddec(ret="prop")
+            endings = ["eof", "close", "shutdown", "connclose", seg(b"QUIT\r\n")]
+            for e1 in endings:
+                for e2 in endings:
+                    if e1 == e2 and e1 in ("eof",) or (e1.startswith("seg") and e2.startswith("seg")):
+                        continue
+                    for gap in ([], ["pause:5"]):
+                        ev = [seg(*pre), "idle", "slowlogout:40", e1] + gap + [e2, "pause:60"]
+                        if tier == "quick" and ("shutdown" in (e1, e2) or gap) and rng.random() < 0.8:
+                            continue          # Shutdown waits for the gated delivery: slow cases are sampled in the quick tier
+                        cases.append("\t".join(["sched", g.cfg_str(dict(lmtp=lm)), be, ";".join(ev)]) + "\tTAG=lifecycle")
+    return cases
+
+
+def groups(tier, rng):
+    return _g0(tier, rng) + [_Group("sched/overlapping-closes", overlapping_closes(tier, rng), project=_C20.project, theorems=THEOREMS)]
